@@ -36,7 +36,7 @@ vlib.known_findings = _known_findings
 class P(vlib.Prop):
     pid = "C12"
     coq_dirs = ["Common", "C12"]   # + coq/Generated/C12Tables.v (written by translate below)
-    coq_targets = ["C12/Properties.vo", "C12/Witness.vo", "C12/Harness.vo"]
+    coq_targets = ["C12/Properties.vo", "C12/Witness.vo", "C12/Harness.vo", "C12/Clauses.vo"]
     properties_module = "C12.Properties"
     properties_file = "C12/Properties.v"
     instance_obligations = ["scheme_first_class_is_code", "scheme_rest_class_is_code", "scheme_pattern_shape_is_code",
@@ -79,6 +79,7 @@ class P(vlib.Prop):
         "confmap.go (sanitize, useExpandValue + mapstructure for string/int/[]string/map[string]string targets), "
         "provider.go (AsString, AsConf) and koanf maps.Merge — tied to the code by the correspondence run on every check",
         "Go harness harness/C12/resolve_test.go (generators, reference interpreter, merge oracle) + go test -overlay; Go toolchain",
+        "decidable clause checkers coq/C12/Clauses.v (tokenizer + token meaning + unescape + merge), sound w.r.t. the theorems' statements",
         "table dump harness/C12/dump_test.go (runs the current schemePattern, newLocation, findURI, replaceUnescaped, "
         "escapeDollarSigns, expandValueRecursively on exhaustive small domains) -> coq/Generated/C12Tables.v; coq/C12/Tie.v proves the model equal to it",
         "modelled, not verified: YAML parsing of provider bytes (the harness records what NewRetrievedFromYAML produced), "
@@ -127,3 +128,72 @@ class P(vlib.Prop):
             "defines": ["C12Tables.go_scheme_first", "C12Tables.go_scheme_rest", "C12Tables.go_scheme_small",
                         "C12Tables.go_new_location", "C12Tables.go_find_uri", "C12Tables.go_replace",
                         "C12Tables.go_unescape", "C12Tables.go_max_rounds"], "params": []})
+
+    CLAUSES = {1: "clause-token-meaning (expansion_refines_tokens_nested)",
+               2: "clause-plain-text (no_reference_only_unescaped)",
+               3: "clause-whole-value-typed (whole_value_typed)",
+               4: "clause-cycle-not-refused (identity_cycle_rejected)",
+               5: "clause-resolvable-but-refused (resolve_tree_leafwise + token/plain clauses)",
+               6: "clause-merge (resolve_reference_free_is_merge)"}
+
+    def extra_checks(self, ctx):
+        """Decidable clause checkers (coq/C12/Clauses.v prop_ok) over EVERY observed case: an oracle that does not
+        run the model's step functions; a case on which it is false is a failing input, named after the clause."""
+        if not ctx.cases:
+            return
+        if any("Tie.v" in w for w, _ in ctx.broken):
+            self.probe_tie_differences(ctx)
+        try:
+            vlib.coq_make(ctx, ["C12/Clauses.vo"])
+        except vlib.Broken as b:
+            ctx.notes.append("clause checkers not evaluated (C12/Clauses.vo does not build): " + b.what)
+            return
+        terms = [c["term"] for c in ctx.cases]
+        failed = vlib.coq_eval_cases(ctx, "C12.Harness C12.Clauses", "prop_ok", self.case_type, terms, shard=self.shard)
+        ctx.extra_coverage["clause_checker"] = {"fn": "C12.Clauses.prop_ok", "cases": len(terms), "violations": len(failed)}
+        for i in failed[:6]:
+            t = terms[i]
+            codes = vlib.coq_eval_term(ctx, "C12.Harness C12.Clauses", "clause_codes %s" % t) if len(t) < 60000 else "?"
+            import re as _re
+            m = _re.search(r"\[([0-9; ]*)\]", codes.split("=", 1)[-1])
+            ids = [int(x) for x in _re.findall(r"\d+", m.group(1))] if m else []
+            kind = self.CLAUSES.get(ids[0], "clause-unknown").split(" ")[0] if ids else "clause-unknown"
+            ctx.oracle.append({"kind": kind, "term": t, "harness": ctx.cases[i]["harness"],
+                               "detail": "decidable clause checker C12.Clauses.prop_ok is false on this observed case; violated: "
+                                         + ", ".join(self.CLAUSES.get(j, str(j)) for j in ids)})
+
+    def probe_tie_differences(self, ctx):
+        """A tie obligation broke: enumerate the finite domains for arguments on which the hand-written model and the
+        regenerated table differ (coq/C12/TieDiff.v tie_probes), run the REAL Resolver on values built from them
+        (harness probe mode) and add the cases; the clause checkers / the model comparison then judge them."""
+        import re as _re
+        try:
+            vlib.coq_make(ctx, ["C12/TieDiff.vo"])
+        except vlib.Broken as b:
+            ctx.notes.append("tie differences not enumerated: " + b.what)
+            return
+        out = vlib.coq_eval_term(ctx, "C12.TieDiff", "tie_probes")
+        pairs = _re.findall(r'\("((?:[^"]|"")*)"(?:%string)?\s*,\s*"((?:[^"]|"")*)"(?:%string)?\)', out)
+        if not pairs:
+            ctx.notes.append("a tie obligation broke but no differing argument was found in the dumped domains")
+            return
+        pf = os.path.join(ctx.work, "tie_probes.txt")
+        with open(pf, "w") as f:
+            for d, v in pairs:
+                f.write("%s\t%s\n" % (d.replace('""', '"'), v.replace('""', '"')))
+        h0 = self.harnesses[0]
+        h = vlib.Harness("probe", h0.module, h0.pkg, h0.files, h0.run, h0.gopkg, timeout=600,
+                         extra_env={"VERIF_C12_PROBES": pf})
+        cases, oracle, stats, err = vlib.run_harness(ctx, h)
+        ctx.log("tie probes: %d differing arguments -> %d implementation runs" % (len(pairs), len(cases)))
+        ctx.notes.append("tie obligation broke: %d differing arguments probed on the implementation" % len(pairs))
+        if err:
+            ctx.broken.append((err.what, err.detail))
+            return
+        ctx.oracle += oracle
+        if cases:
+            terms = [c["term"] for c in cases]
+            bad = vlib.coq_eval_cases(ctx, self.harness_module, self.check_fn, self.case_type, terms, shard=self.shard)
+            for i in bad[:20]:
+                ctx.mismatches.append({"term": terms[i], "harness": "probe"})
+            ctx.cases += cases
